@@ -188,6 +188,11 @@ func (c02) Generate(idx int, r *core.Rand, tier string) core.Script {
 		case i == solvedAt:
 			k := randScalar(w)
 			e = solveE(solvedReason, d, k)
+			if solvedReason == ref.RejR0 && w.Chance(1, 6) { // e + x1 = 2n instead of n
+				var x1 *big.Int
+				k, x1 = extremeNonce(w)
+				e = extremeE(w, x1, "r0")
+			}
 			s.Content.Candidates = append(s.Content.Candidates, hx(ref.Pad32(k)))
 		case w.Chance(1, 3):
 			s.Content.Candidates = append(s.Content.Candidates, hx(make([]byte, 32)))
@@ -224,8 +229,15 @@ func (c02) Generate(idx int, r *core.Rand, tier string) core.Script {
 	case 1:
 		k = new(big.Int).Sub(nMinus1, big.NewInt(int64(w.Intn(3))))
 	}
+	extreme := solvedAt < 0 && ref.KeyValid(d) && w.Chance(1, 24)
+	if extreme { // e + x1 around and above 2n: the reduction of r needs two subtractions
+		var x1 *big.Int
+		k, x1 = extremeNonce(w)
+		e = extremeE(w, x1, "")
+		s.Note = "extreme x1"
+	}
 	s.Content.Candidates = append(s.Content.Candidates, hx(ref.Pad32(k)))
-	if solvedAt < 0 && ref.KeyValid(d) && w.Chance(1, 2) {
+	if !extreme && solvedAt < 0 && ref.KeyValid(d) && w.Chance(1, 2) {
 		x1 := ref.MulG(k).X
 		small := smallValue(w)
 		ev := new(big.Int)
